@@ -677,4 +677,57 @@ example : ∀ a ∈ flatten [] exTree, lookupPath a.1 (unflatten (sortedLeaves e
   (C12_unflatten_flatten_lookup exTree (by simp [exTree, HNK, HN, KVs.keys]) _ (List.mergeSort_perm _ _) a ha).1
 example : (flatten [] exTree).map (·.1) = [[['b']], [['a'], ['y']], [['a'], ['x']]] := by decide
 
+/-! # merge FIRST, then expand: what an overridden reference can and cannot do -/
+
+theorem resolveLeaves_error (env : Env) : ∀ (ls : List Leaf) (e : Errs), resolveLeaves env ls = .error e →
+    ∃ l ∈ ls, resolveValue env l.2 = .error e
+  | [], e, h => by simp [resolveLeaves] at h
+  | (p, v) :: rest, e, h => by
+    rw [resolveLeaves] at h
+    cases hv : resolveValue env v with
+    | error e' =>
+      simp only [hv, Except.error.injEq] at h
+      exact ⟨(p, v), List.mem_cons_self .., by rw [hv, h]⟩
+    | ok v' =>
+      simp only [hv] at h
+      cases hr : resolveLeaves env rest with
+      | error e' =>
+        simp only [hr, Except.error.injEq] at h
+        obtain ⟨l, hl, he⟩ := resolveLeaves_error env rest e' hr
+        exact ⟨l, List.mem_cons_of_mem _ hl, by rw [he, h]⟩
+      | ok r => simp [hr] at h
+
+/-- `Resolve` can only fail because a source is not a map or because a value that SURVIVES the merge fails to resolve:
+a reference that a later source replaces is never looked at — an unknown scheme, a failing provider, a cycle or a `$` in
+the name of an overridden reference cannot fail the resolution (and, by `C12_resolve_lookup`, what it refers to cannot
+leak into the result) -/
+theorem C12_resolve_error_from_merged_leaf (env : Env) (srcs : List Val) (e : Errs) (h : resolve env srcs = .error e) :
+    srcs.mapM asConf = none ∨
+    ∃ ms, srcs.mapM asConf = some ms ∧ ∃ l ∈ flatten [] (mergeSources ms), resolveValue env l.2 = .error e := by
+  unfold resolve at h
+  cases hm : srcs.mapM asConf with
+  | none => exact Or.inl rfl
+  | some ms =>
+    right
+    simp only [hm] at h
+    cases hl : resolveLeaves env (sortedLeaves (mergeSources ms)) with
+    | ok leaves => simp [hl] at h
+    | error e' =>
+      simp only [hl, Except.error.injEq] at h
+      obtain ⟨l, hmem, he⟩ := resolveLeaves_error env _ e' hl
+      exact ⟨ms, rfl, l, (List.mergeSort_perm _ _).mem_iff.1 hmem, by rw [he, h]⟩
+
+/-- an earlier `k: ${zz:A}` (unknown scheme) replaced by a later `k: 1`: resolution succeeds, with the merged leaves -/
+example : resolve (exEnv .fixed) [.map (.cons ['k'] (.str ['$', '{', 'z', 'z', ':', 'A', '}']) .nil),
+    .map (.cons ['k'] (.int 1) .nil)] =
+    .ok (unflatten (sortedLeaves (mergeSources [.cons ['k'] (.str ['$', '{', 'z', 'z', ':', 'A', '}']) .nil,
+      .cons ['k'] (.int 1) .nil]))) :=
+  C12_resolve_plain (exEnv .fixed) _ _ rfl (by
+    intro l hl
+    simp [mergeSources, mergeKVs, KVs.lookup, KVs.set, flatten] at hl
+    subst hl
+    rfl)
+/-- … while the same reference in a value that survives fails it -/
+example : resolveValue (exEnv .fixed) (.str ['$', '{', 'z', 'z', ':', 'A', '}']) = .error [.unsupportedScheme] := rfl
+
 end OtelVerif.C12
